@@ -49,27 +49,47 @@ Proof.
   destruct (take_bytes (size - clen c) w). cbn. discriminate.
 Qed.
 
+(* ---------- split_word: splitBytes plus the progress rule ---------- *)
+Lemma split_word_app size w : fst (split_word size w) ++ snd (split_word size w) = w.
+Proof.
+  unfold split_word. pose proof (take_bytes_app size w) as H.
+  destruct (take_bytes size w) as [[|b bs] [|c w']]; cbn [fst snd app] in *; try exact H.
+Qed.
+
+Lemma split_word_nonempty size w : w <> [] -> fst (split_word size w) <> [].
+Proof.
+  intro Hw. unfold split_word. pose proof (take_bytes_app size w) as H.
+  destruct (take_bytes size w) as [[|b bs] [|c w']]; cbn [fst snd app] in *; try discriminate. congruence.
+Qed.
+
+Lemma split_word_le size w : 4 <= size -> blen (fst (split_word size w)) <= size.
+Proof.
+  intro Hs. unfold split_word. pose proof (take_bytes_le size w) as H.
+  destruct (take_bytes size w) as [[|b bs] [|c w']]; cbn [fst] in *; try exact H.
+  cbn [blen]. pose proof (clen_bounds c). lia.
+Qed.
+
 (* ---------- the loop: chunks fit ---------- *)
 Definition fits (size : N) (l : str) : Prop := blen l <= size.
 
 Lemma btw_loop_fits fuel : forall size words done cur ls,
-  fits size cur -> Forall (fits size) done ->
+  4 <= size -> fits size cur -> Forall (fits size) done ->
   btw_loop fuel size words done cur = Ok ls -> Forall (fits size) ls.
 Proof.
-  induction fuel as [|f IH]; intros size words done cur ls Hc Hd H; [discriminate|].
+  induction fuel as [|f IH]; intros size words done cur ls Hs4 Hc Hd H; [discriminate|].
   cbn [btw_loop] in H. destruct words as [|word0 rest].
   - injection H as <-. change (Forall (fits size) (rev (cur :: done))). apply Forall_rev. constructor; assumption.
   - destruct (size <? blen word0) eqn:Es.
-    + pose proof (take_bytes_le size word0) as Hle.
-      destruct (take_bytes size word0) as [word after]. cbn [fst] in Hle.
+    + pose proof (split_word_le size word0 Hs4) as Hle.
+      destruct (split_word size word0) as [word after]. cbn [fst] in Hle.
       destruct word as [|w0 word']; [discriminate|]. cbn [andb] in H.
       destruct (blen cur + blen (w0 :: word') <=? size) eqn:E.
-      * eapply IH; [| exact Hd | exact H]. unfold fits. rewrite blen_app. lia.
-      * eapply IH; [| | exact H]; [exact Hle|constructor; assumption].
+      * eapply IH; [exact Hs4| | exact Hd | exact H]. unfold fits. rewrite blen_app. lia.
+      * eapply IH; [exact Hs4| | | exact H]; [exact Hle|constructor; assumption].
     + cbn [andb] in H.
       destruct (blen cur + blen word0 <=? size) eqn:E.
-      * eapply IH; [| exact Hd | exact H]. unfold fits. rewrite blen_app. lia.
-      * eapply IH; [| | exact H]; [unfold fits; lia|constructor; assumption].
+      * eapply IH; [exact Hs4| | exact Hd | exact H]. unfold fits. rewrite blen_app. lia.
+      * eapply IH; [exact Hs4| | | exact H]; [unfold fits; lia|constructor; assumption].
 Qed.
 
 (* ---------- the loop: concatenation preserved ---------- *)
@@ -81,8 +101,8 @@ Proof.
   cbn [btw_loop] in H. destruct words as [|word0 rest].
   - injection H as <-. rewrite concat_app. cbn. rewrite !app_nil_r. reflexivity.
   - destruct (size <? blen word0) eqn:Es.
-    + pose proof (take_bytes_app size word0) as Happ.
-      destruct (take_bytes size word0) as [word after]. cbn [fst snd] in Happ.
+    + pose proof (split_word_app size word0) as Happ.
+      destruct (split_word size word0) as [word after]. cbn [fst snd] in Happ.
       destruct word as [|w0 word']; [discriminate|]. cbn [andb] in H.
       destruct (blen cur + blen (w0 :: word') <=? size).
       * apply IH in H. rewrite H. cbn [concat]. rewrite <- Happ. rewrite <- !app_assoc. reflexivity.
@@ -97,29 +117,29 @@ Qed.
 
 (* ---------- the loop: terminates for size >= 4 ---------- *)
 Lemma btw_loop_total fuel : forall size words done cur,
-  4 <= size -> (length (concat words) + length words < fuel)%nat ->
+  (length (concat words) + length words < fuel)%nat ->
   exists ls, btw_loop fuel size words done cur = Ok ls.
 Proof.
-  induction fuel as [|f IH]; intros size words done cur Hs Hm; [lia|].
+  induction fuel as [|f IH]; intros size words done cur Hm; [lia|].
   cbn [btw_loop]. destruct words as [|word0 rest]; [eexists; reflexivity|].
   cbn [concat length] in Hm. rewrite app_length in Hm.
   destruct (size <? blen word0) eqn:Es.
   - assert (Hne : word0 <> []) by (apply blen_pos_nonnil; lia).
-    pose proof (take_bytes_nonempty size word0 Hs Hne) as Hb.
-    pose proof (take_bytes_app size word0) as Happ.
-    destruct (take_bytes size word0) as [word after]. cbn [fst snd] in Hb, Happ.
+    pose proof (split_word_nonempty size word0 Hne) as Hb.
+    pose proof (split_word_app size word0) as Happ.
+    destruct (split_word size word0) as [word after]. cbn [fst snd] in Hb, Happ.
     destruct word as [|w0 word']; [congruence|]. cbn [andb].
     assert (Hlen : (length after < length word0)%nat).
     { rewrite <- Happ. rewrite app_length. cbn [length]. lia. }
-    destruct (blen cur + blen (w0 :: word') <=? size); apply IH; try exact Hs;
+    destruct (blen cur + blen (w0 :: word') <=? size); apply IH;
       cbn [concat length]; rewrite app_length; lia.
-  - cbn [andb]. destruct (blen cur + blen word0 <=? size); apply IH; try exact Hs; lia.
+  - cbn [andb]. destruct (blen cur + blen word0 <=? size); apply IH; lia.
 Qed.
 
 (* ---------- byteTextWrap ---------- *)
 Lemma byteTextWrap_inv words size ls :
   byteTextWrap words size = Ok ls ->
-  btw_loop (btw_fuel words) (Z.to_N size) words [] [] = Ok ls.
+  btw_loop (btw_fuel words) (N.max 1 (Z.to_N size)) words [] [] = Ok ls.
 Proof. unfold byteTextWrap. destruct (existsb has_surrogate words); [discriminate|auto]. Qed.
 
 Theorem wrap_bytes : forall words (n : Z) ls,
@@ -127,7 +147,7 @@ Theorem wrap_bytes : forall words (n : Z) ls,
   Forall (fun l => (Z.of_nat (length (utf8 l)) <= n)%Z) ls.
 Proof.
   intros words n ls Hn H. apply byteTextWrap_inv in H.
-  apply btw_loop_fits in H; [| unfold fits; cbn; lia | constructor].
+  apply btw_loop_fits in H; [| lia | unfold fits; cbn; lia | constructor].
   eapply Forall_impl; [|exact H]. intros l Hl. unfold fits in Hl.
   rewrite <- utf8_len in Hl. lia.
 Qed.
@@ -136,14 +156,14 @@ Theorem wrap_concat : forall words n ls,
   byteTextWrap words n = Ok ls -> concat ls = concat words.
 Proof. intros words n ls H. apply byteTextWrap_inv in H. apply btw_loop_concat in H. exact H. Qed.
 
+(* for EVERY width (even 0 or negative: a line takes at least one character) the loop terminates:
+   each step consumes a word or shortens it by at least one character *)
 Theorem wrap_total : forall words (n : Z),
-  (4 <= n)%Z -> existsb has_surrogate words = false ->
+  existsb has_surrogate words = false ->
   exists ls, byteTextWrap words n = Ok ls.
 Proof.
-  intros words n Hn Hs. unfold byteTextWrap. rewrite Hs.
-  apply btw_loop_total.
-  - change 4 with (Z.to_N 4). apply Z2N.inj_le; lia.
-  - unfold btw_fuel. apply Nat.lt_succ_diag_r.
+  intros words n Hs. unfold byteTextWrap. rewrite Hs.
+  apply btw_loop_total. unfold btw_fuel. apply Nat.lt_succ_diag_r.
 Qed.
 
 (* the closed word splitter: runs of blanks / non-blanks of the munged text *)
@@ -161,10 +181,12 @@ Theorem wrap_munge : forall s n ls,
 Proof. intros s n ls H. apply wrap_concat in H. rewrite H. apply runs_concat. Qed.
 
 (* below 4 bytes the Python loop can spin for ever (splitBytes returns b'') *)
-Theorem wrap_small_hangs :
-  exists words n, (0 < n < 4)%Z /\ existsb has_surrogate words = false /\
-                  byteTextWrap words n = Raise OtherError.
-Proof. exists [[233]], 1%Z. repeat split; try lia; reflexivity. Qed.
+(* below 4 bytes a chunk may be a single character longer than the width (it used to loop for ever) *)
+Example wrap_small_widths :
+  byteTextWrap [[97; 233; 98]] 1 = Ok [[97]; [233]; [98]] /\
+  byteTextWrap [[104; 105]; [32]; [111]] 0 = Ok [[104]; [105]; [32]; [111]] /\
+  byteTextWrap [[104; 105]; [32]; [111]] (-7) = Ok [[104]; [105]; [32]; [111]].
+Proof. repeat split; vm_compute; reflexivity. Qed.
 
 (* non-vacuity: a multi-byte text really is split *)
 Example wrap_example :
